@@ -2,6 +2,7 @@ package props
 
 import (
 	"fmt"
+	"math"
 	"math/rand"
 	"sort"
 	"strings"
@@ -570,8 +571,31 @@ func c05RegexPair(c *core.C) {
 	c.Count("regex_pairs", 1)
 }
 
+// c05BoundaryArith: one fact, one rule whose expression does 64-bit arithmetic on the boundary
+// values inside the engine (q($x,$y) <- p($x,$y), $x op $y < 0): where the exact result does not
+// fit, the run fails and derives nothing; where it fits, the least model is the reference's.
+func c05BoundaryArith(c *core.C) {
+	vals := []int64{math.MinInt64, math.MinInt64 + 1, -2, -1, 0, 1, 2, math.MaxInt64 - 1, math.MaxInt64, 3037000500, -3037000500, 1 << 32, 1<<32 - 1}
+	x, y := ast.Var("x"), ast.Var("y")
+	for _, op := range []int{int(ast.BAdd), int(ast.BSub), int(ast.BMul), int(ast.BDiv)} {
+		for _, a := range vals {
+			for _, b := range vals {
+				prog := c05Prog{Facts: []ast.Pred{ast.P("p", ast.Int(a), ast.Int(b))}}
+				e := ast.Expr{ast.OV(x), ast.OV(y), ast.OB(op), ast.OV(ast.Int(0)), ast.OB(int(ast.BLessThan))}
+				prog.Rules = []ast.Rule{{Head: ast.P("q", x, y), Body: []ast.Pred{ast.P("p", x, y)}, Exprs: []ast.Expr{e}}}
+				prog.Queries = []ast.Rule{{Head: ast.P("ans", x, y), Body: []ast.Pred{ast.P("p", x, y)}, Exprs: []ast.Expr{e}}}
+				c05RunProg(c, "boundary-arith", prog)
+			}
+		}
+	}
+	c.Count("boundary_arith_programs", 4*len(vals)*len(vals))
+}
+
 func c05Run(c *core.C) {
 	nx := c05ExhaustiveCases()
+	if c.Idx == nx {
+		c05BoundaryArith(c)
+	}
 	switch {
 	case c.Idx < nx:
 		c05Exhaustive(c, c.Idx)
